@@ -152,6 +152,16 @@ fn extra_sets(tier: Tier) -> Vec<(String, Vec<(String, Vec<u8>)>)> {
     for len in [0usize, 1, 31, 32, 33, 64, 100, 300, 5000] {
         v.push((format!("equal and prefix bodies of {} bytes", len), vec![("one".to_string(), body(0, len)), ("two".to_string(), body(0, len)), ("prefix".to_string(), body(0, len / 2))]));
     }
+    // bodies that differ ONLY by trailing zero bytes (equal once padded to the 32-byte block): a
+    // writer that recognises "the same body" on the padded form confuses their sizes
+    for head in [vec![], vec![7u8, 7, 7], vec![0u8; 30], vec![9u8; 32]] {
+        for k in [1usize, 2, 28, 29, 31, 32, 33] {
+            let mut longer = head.clone();
+            longer.extend(std::iter::repeat(0u8).take(k));
+            v.push((format!("a body of {} bytes and the same body + {} zero bytes", head.len(), k), vec![("short".to_string(), head.clone()), ("long".to_string(), longer.clone()), ("again".to_string(), head.clone())]));
+            v.push((format!("a body of {} bytes + {} zero bytes and the body without them", head.len(), k), vec![("long".to_string(), longer), ("short".to_string(), head.clone())]));
+        }
+    }
     let (counts, lens, names) = tier.pick((300usize, 200usize, 300usize), (1500, 700, 1200));
     for n in 0..=counts {
         v.push((format!("{} files", n), (0..n).map(|i| (format!("f{}", i), body(i % 4, (i * 7) % 5))).collect()));
